@@ -140,4 +140,20 @@ __CPROVER_ensures((rc != 0 && qsv_g.gk < lp->O->nstruct) ==> NUMEQ(rc[qsv_g.gk],
 __CPROVER_ensures((pi != 0 && qsv_g.gk < lp->O->nrows) ==> NUMEQ(pi[qsv_g.gk], C->pi[qsv_g.gk]))
 __CPROVER_ensures((slack != 0 && qsv_g.gk < lp->O->nrows) ==> NUMEQ(slack[qsv_g.gk], C->slack[qsv_g.gk]))
 ;
+
+/* C12/C14 "returned bases are exact": ILLlib_getbasis translates the solver's internal status of EVERY structural
+ * column (through the column map; ghost column gc) and of EVERY row's logical column (through the row map; ghost row gr)
+ * into the documented status codes: columns basic/lower/upper/free; rows basic/lower/upper, where a non-ranged row's
+ * logical at upper is reported as lower (documented).  An unsolved / modified LP (basisid == -1) is rejected. */
+#define CSTAT_OF(v) ((v) == STAT_BASIC ? QS_COL_BSTAT_BASIC : (v) == STAT_LOWER ? QS_COL_BSTAT_LOWER : (v) == STAT_UPPER ? QS_COL_BSTAT_UPPER : QS_COL_BSTAT_FREE)
+#define RSTAT_OF(v, ranged) ((v) == STAT_BASIC ? QS_ROW_BSTAT_BASIC : ((v) == STAT_UPPER && (ranged)) ? QS_ROW_BSTAT_UPPER : QS_ROW_BSTAT_LOWER)
+#define ROW_RANGED(lp, r) ((lp)->O->rangeval != 0 && NUMV((lp)->O->rangeval[r]) != 0)
+int contract_ILLlib_getbasis(mpq_lpinfo *lp, char *cstat, char *rstat)
+__CPROVER_requires(LP_OK(lp) && GC_OK(lp) && GR_OK(lp) && 0 <= lp->O->rowmap[qsv_g.gr] && lp->O->rowmap[qsv_g.gr] < lp->O->ncols)
+__CPROVER_assigns(__CPROVER_object_whole(cstat), __CPROVER_object_whole(rstat))
+__CPROVER_ensures((lp->basisid == -1) ==> __CPROVER_return_value != 0)
+__CPROVER_ensures(__CPROVER_return_value == 0 ==> (lp->vstat[COLOF(lp, qsv_g.gc)] >= STAT_BASIC && lp->vstat[COLOF(lp, qsv_g.gc)] <= STAT_ZERO && cstat[qsv_g.gc] == CSTAT_OF(lp->vstat[COLOF(lp, qsv_g.gc)])))
+__CPROVER_ensures(__CPROVER_return_value == 0 ==> rstat[qsv_g.gr] == RSTAT_OF(lp->vstat[lp->O->rowmap[qsv_g.gr]], ROW_RANGED(lp, qsv_g.gr)))
+__CPROVER_ensures(__CPROVER_return_value == 0 ==> (lp->vstat[lp->O->rowmap[qsv_g.gr]] == STAT_BASIC || lp->vstat[lp->O->rowmap[qsv_g.gr]] == STAT_LOWER || lp->vstat[lp->O->rowmap[qsv_g.gr]] == STAT_UPPER))
+;
 #endif
